@@ -287,8 +287,10 @@ class World(object):
         parent_group = self.current_group
         new_group = SimGroup(parent=parent_group)
         self.current_group = new_group
-        yield
-        self.current_group = parent_group
+        try:
+            yield
+        finally:
+            self.current_group = parent_group
 
     def start(
         self,
